@@ -140,6 +140,36 @@ func (c *c06) thriftEntries(t byte, in []byte) []RobRes {
 	return res
 }
 
+// message envelopes: the wrapper parser and the protocol's own header reader
+func (c *c06) envEntries(in []byte) []RobRes {
+	var res []RobRes
+	res = append(res, measure("t.UnwrapBinaryMessage", func() error { _, _, _, _, _, err := thrift.UnwrapBinaryMessage(in); return err }))
+	res = append(res, measure("t.UnwrapBody", func() error {
+		_, _, _, _, _, err := (thrift.BinaryProtocol{Buf: in}).UnwrapBody()
+		return err
+	}))
+	for _, cp := range []bool{false, true} {
+		cp := cp
+		res = append(res, measure(fmt.Sprintf("t.ReadMessage/copy=%v", cp), func() error {
+			p := thrift.BinaryProtocol{Buf: in}
+			if _, _, _, err := p.ReadMessageBegin(cp); err != nil {
+				return err
+			}
+			if _, _, _, err := p.ReadFieldBegin(); err != nil {
+				return err
+			}
+			if err := p.Skip(thrift.STRUCT, false); err != nil {
+				return err
+			}
+			if _, _, _, err := p.ReadFieldBegin(); err != nil {
+				return err
+			}
+			return p.ReadMessageEnd()
+		}))
+	}
+	return res
+}
+
 func (c *c06) protoEntries(in []byte) []RobRes {
 	var res []RobRes
 	desc := c.penv.droot
@@ -205,6 +235,8 @@ func (c *c06) run(rc RobCase) {
 		res = c.thriftEntries(byte(rc.T), in)
 	case "proto":
 		res = c.protoEntries(in)
+	case "env":
+		res = c.envEntries(in)
 	case "json-t":
 		res = append(res, measure("j2t.Do", func() error {
 			cv := j2t.NewBinaryConv(conv.Options{})
@@ -268,14 +300,15 @@ func c06Main(args map[string]string) {
 				return
 			}
 			idx++
-			if idx-1 < startAt || (idx-1)%stride != 0 {
-				return
-			}
 			if rc.Kind == "" {
 				rc.Kind = "proto"
 				if rc.T != 0 {
 					rc.Kind = "thrift"
 				}
+			}
+			// envelopes are cheap and their hostile points are few: never thinned out
+			if idx-1 < startAt || (rc.Kind != "env" && (idx-1)%stride != 0) {
+				return
 			}
 			c.out.Begin(idx-1, rc)
 			c.run(rc)
